@@ -327,11 +327,13 @@ TEXT["C26"] = {
              "Disconnect] of Ping and Publish QoS 0/1 calls succeeds call by call with exactly one nil return and exactly the "
              "documented packet at the broker; C26_subscriptions_and_delivery - programs that also Subscribe on short topics and "
              "receive broker messages QoS 0/1 on them: every broker message reaches EXACTLY ONE handler invocation of the right "
-             "subscription with its topic, payload and flags and is acknowledged; C26_refuted - two broker messages in flight on one not-yet-registered topic: only "
+             "subscription with its topic, payload and flags and is acknowledged; C26_programs_with_register_qos2_unsubscribe - the "
+             "same with Register, Publish at QoS 0-2 on registered names and Unsubscribe, ending with the registrations of client "
+             "and gateway and the subscriptions of client and broker equal to the program's; C26_refuted - two broker messages in flight on one not-yet-registered topic: only "
              "one reaches the handler (recorded finding, witness on the real code in every run). The other API calls, sleep "
              "cycles and handler delivery are NOT proved: the monitor clauses (26,1)-(26,4) check them on the real client + real "
              "gateway against the composed model on generated programs incl. bursts in flight.",
-    "note": COMMON_NOTE + " Partial: the theorems cover Connect / Ping / Publish QoS 0-1 / Subscribe on short topics / broker messages on them / Disconnect programs only; everything else of the property is tested against the composed model, not proved. The broker is a specification broker (MQTT 3.1.1 routing), not mosquitto.",
+    "note": COMMON_NOTE + " Partial: the theorems cover Connect / Ping / Register / Publish QoS 0-2 on short and registered names / Subscribe and Unsubscribe on short names / broker messages QoS 0-1 on them / Disconnect programs (no wildcards, no predefined topics, no sleep, no time passing); everything else of the property is tested against the composed model, not proved. The broker is a specification broker (MQTT 3.1.1 routing), not mosquitto.",
     "technique": "Coq theorems about the composed client+gateway+broker model for a class of API programs, a refutation witness, and end-to-end differential execution of the real client and gateway with a monitor",
 }
 
